@@ -73,8 +73,10 @@ def beamPos (m : Machine) (t : Nat) : Option Nat :=
     let d := t - borderOrigin m
     let line := d / m.clocksLine
     let px := (d % m.clocksLine + 1) * 2
-    let lp : Nat × Nat := if px - 2 ≥ 320 then (line + 1, 0) else (line, px)
-    if lp.1 ≥ 240 then none else some (lp.1 * 320 + lp.2)
+    let next := px - 2 ≥ 320
+    let line := if next then line + 1 else line
+    let px := if next then 0 else px
+    if line ≥ 240 then none else some (line * 320 + px)
 
 /-- colour of the last write (in time order) whose beam position is ≤ `q`; `init` if none -/
 def colourAt (m : Machine) (init : BitVec 3) (ws : List (Nat × BitVec 3)) (q : Nat) : BitVec 3 :=
